@@ -44,6 +44,12 @@ def reg_bc(check):
             if args == [f.params[0], f.params[2], f.params[3], f.params[4]] and isinstance(node.func.slice, ast.Name) and node.func.slice.id == f.params[1] and "_bcdict" in unparse(node.func.value):
                 ok = True
     check.record("REG-BC", f.qualname, ok, "namedBC(name, dir, data, param) calls _bcdict[name](self, dir, data, param)", f.loc(), key="dispatch")
+    sites_1d(check, proj, "REG-BC")
+
+
+def sites_1d(check, proj, rule="REG-BC"):
+    """the two namedBC call sites of fvm1d.calc_bc, decoded: which direction, which interior face
+    state is handed over, where the result is stored"""
     # 1D call sites, decoded
     D = Disc1D(proj, neq=2, periodic=False)
     A = D.alg
@@ -61,7 +67,7 @@ def reg_bc(check):
     D.fvm("calc_bc")
     g = proj.func("modeldisc.fvm1d.calc_bc")
     if len(calls) != 2:
-        check.violation("REG-BC", g.qualname, "%d namedBC calls for two non-periodic boundaries" % len(calls), g.loc(), key="ncalls")
+        check.violation(rule, g.qualname, "%d namedBC calls for two non-periodic boundaries" % len(calls), g.loc(), key="ncalls")
         return
     for name, dirv, data, param, out in calls:
         side = param.get("tag")
@@ -76,7 +82,7 @@ def reg_bc(check):
         other = D.so.attrs["p" + src]
         ok_keep = all(A.equal(D.stn.elem(other[i], idx), D.stn.absol("%s%d" % (src, i), idx)) for i in range(2))
         good = ok and ok_in and ok_out and ok_keep
-        check.record("REG-BC", "%s [%s boundary]" % (g.qualname, "left" if side == "L" else "right"), good,
+        check.record(rule, "%s [%s boundary]" % (g.qualname, "left" if side == "L" else "right"), good,
                      "namedBC(type, %+d, interior p%s[.][%s], bc dict) and the result is stored as the exterior state p%s[.][%s]" % (want_dir, src, "0" if side == "L" else "n", dst, "0" if side == "L" else "n") if good else
                      "call site passes type=%s dir=%s interior-ok=%s stores-exterior=%s interior-kept=%s (expected dir %+d, interior side p%s, exterior side p%s)" % (name, dirv, ok_in, ok_out, ok_keep, want_dir, src, dst),
                      g.loc(), key="site-" + side)
